@@ -357,9 +357,19 @@ void excludeBeforeRun(vf::Ctx& c, const Case& k) {
   // Powell's stop test is 2|fp-fret|/(|fp|+|fret|): 0/0 once the objective value is exactly 0 twice in a row, the
   // test is then never true and the run lasts 10^6 iterations (minutes). Only possible when the minimum value is 0.
   if (usesKind(k, POWELL) && k.spec.d == 0) c.excludeIfKnown("C10-powell-nan-stop");
+  // MetaOptimizer with n >= 2 progressive steps derives the intermediate tolerances from log10(f(start)): NaN (or
+  // -inf) for f(start) <= 0, the sub-optimisers then never see "tolerance reached" and run to their own caps (10^6)
+  if (k.opt == META && k.metaN >= 2 && k.spec.eval(k.start) <= 0) c.excludeIfKnown("C10-meta-log10-initial-value");
 }
 
+Out runCase1(vf::Ctx& c, const Case& k);
 Out runCase(vf::Ctx& c, const Case& k) {
+  if (!getenv("C10_TRACE")) return runCase1(c, k);
+  double t0 = vf::cpuS(); Out o = runCase1(c, k);
+  fprintf(stderr, "C10 time %.3f evals %zu steps %zu nEval %u exc=%s\n", vf::cpuS() - t0, o.obj ? o.obj->rec.count() : 0, o.steps, o.nEval, o.exc.substr(0, 60).c_str());
+  return o;
+}
+Out runCase1(vf::Ctx& c, const Case& k) {
   excludeBeforeRun(c, k);
   if (getenv("C10_TRACE")) fprintf(stderr, "C10 case: %s\n", showCase(k).c_str());
   Out o;
